@@ -342,13 +342,16 @@ class Dataset(Evaluatable[A]):
         >>>
         >>> a_squared = a_to_power.with_options({'POWER': 2})
         """
-        return Dataset(
+        derived = Dataset(
             self.overloads,
             self.effects,
             self.cache,
             mix(self.options, options),  # type: ignore
             self.default_options,
+            self.callback,
         )
+        derived._effects_disabled = self._effects_disabled
+        return derived
 
     def with_default_options(self, options: Options) -> "Dataset[A]":
         """Returns a new dataset with the provided options as default.
@@ -367,13 +370,16 @@ class Dataset(Evaluatable[A]):
         Dataset[A]
             A new dataset with the provided options as default.
         """
-        return Dataset(
+        derived = Dataset(
             self.overloads,
             self.effects,
             self.cache,
             self.options,
             mix(self.default_options, options),  # type: ignore
+            self.callback,
         )
+        derived._effects_disabled = self._effects_disabled
+        return derived
 
     @property
     def default(self) -> MaybeMissing[Evaluatable[A]]:
